@@ -10,8 +10,10 @@
 (* record (what was really done to the packet: `truth`, `mut`; what the    *)
 (* real code answered: `outcome`, `ck`), and                               *)
 (*   monitor (NtsPacketTrace_mon.cfg): the property section of NtsPacket   *)
-(*     (Sound, Complete, CookieBinding, AuthenticOnly) + observed          *)
-(*     ExportKeys distinctness                                             *)
+(*     (Sound, Complete, CookieBinding, AuthenticOnly, RejectedInert: the  *)
+(*     client's cookie pool, read before and after the call, did not grow  *)
+(*     unless the response was accepted) + observed ExportKeys             *)
+(*     distinctness                                                        *)
 (*   strict (NtsPacketTrace_strict.cfg): the outcome is one the            *)
 (*     specification predicts for this class of mutation (TLC's            *)
 (*     enumeration, carried by the case), recomputed here from the         *)
@@ -28,6 +30,7 @@ AdWhole == TRUE
 Hardened == TRUE
 StopAtAuth == TRUE
 CtLenExact == TRUE
+StoreAfterUid == TRUE
 LenChoices(x) == {}
 TruncMax == 0
 VARIABLES phase, role, nf, wire, mut, truth, outcome, ck, l
@@ -52,7 +55,7 @@ TNext ==
      /\ truth' = [key |-> R.key, dir |-> R.dir, uid |-> R.uid, touched |-> SetOf(R.touched),
                   ckey |-> R.t_ckey, csc |-> R.t_csc]
      /\ outcome' = R.out
-     /\ ck' = [opened |-> R.ck_opened, key |-> R.ck_key, sc |-> R.ck_sc, cok |-> R.cok]
+     /\ ck' = [opened |-> R.ck_opened, key |-> R.ck_key, sc |-> R.ck_sc, cok |-> R.cok, stored |-> R.stored]
 TSpec == TInit /\ [][TNext]_<<vars, l>>
 
 R == Trace[l]
